@@ -9,6 +9,7 @@ import z3
 
 from .. import symex as sx
 from .. import scen, spec, dyn, stubs
+from . import common
 from ..scen import Shape, STATUS, tz, public
 
 import nasim.envs.network as m_net
@@ -133,3 +134,4 @@ def describe(r):
                 pre={str(a): {k: m(v) for k, v in d.items()} for a, d in r.st.items()},
                 post={str(a): {k: m(v) for k, v in d.items()} for a, d in r.post.items()},
                 success=m(r.res['success']))
+prefer = common.prefer
